@@ -45,10 +45,15 @@ Proof.
 Qed.
 
 Lemma lookup_way_geo d id : G.lookup_way (gways d) id = option_map gway (way_lookup d id).
-Proof. unfold G.lookup_way, gways, way_lookup. rewrite find_rev_last, find_last_map. reflexivity. Qed.
+Proof.
+  (* Geo reverses with rev or with rev_append _ []: the same list *)
+  unfold G.lookup_way, gways, way_lookup. rewrite ?rev_append_rev, ?app_nil_r. rewrite find_rev_last, find_last_map. reflexivity.
+Qed.
 
 Lemma lookup_node_geo d id : G.lookup_node (gnodes d) id = option_map gnode (node_lookup d id).
-Proof. unfold G.lookup_node, gnodes, node_lookup. rewrite find_rev_last, find_last_map. reflexivity. Qed.
+Proof.
+  unfold G.lookup_node, gnodes, node_lookup. rewrite ?rev_append_rev, ?app_nil_r. rewrite find_rev_last, find_last_map. reflexivity.
+Qed.
 
 (* ---------- wayToLineString ---------- *)
 Lemma way_to_line_geo d wns :
